@@ -3,6 +3,7 @@
 package worldr
 
 import (
+	"context"
 	"flag"
 	"fmt"
 	"os"
@@ -10,6 +11,8 @@ import (
 	"testing/synctest"
 	"time"
 
+	"github.com/google/gce-tcb-verifier/cmd/output"
+	"github.com/google/gce-tcb-verifier/gcetcbendorsement"
 	"github.com/google/gce-tcb-verifier/verify"
 
 	"verifsim/core"
@@ -76,6 +79,21 @@ func wallClockScenario(r *core.Run, is *Issued, a *Party) {
 				got := longLived(SnpAttestation(meas, nil), is.Bytes)
 				r.Eval("wall-clock|"+ph.name+fmt.Sprintf("|accept=%v", got == nil), true)
 				r.Eventf("wall-clock phase %s at %s: long-lived accept=%v fresh accept=%v", ph.name, time.Now().UTC().Format(time.RFC3339), got == nil, want == nil)
+				// leaving Now unset means "now": the one-shot entry points decide as with the clock's
+				// reading given explicitly
+				unset := verify.Endorsement(is.Bytes, &verify.Options{RootsOfTrust: Pool(a.Root)})
+				explicit := verify.Endorsement(is.Bytes, &verify.Options{RootsOfTrust: Pool(a.Root), Now: time.Now()})
+				if (unset == nil) != (explicit == nil) {
+					r.Fail("result-differs-from-isolation", "wall-clock/unset-vs-explicit/"+ph.name, "verify.Endorsement with Now unset gives accept=%v at wall-clock time %s, with that time given explicitly accept=%v (%v / %v)",
+						unset == nil, time.Now().UTC().Format(time.RFC3339), explicit == nil, unset, explicit)
+				}
+				sctx := output.NewContext(context.Background(), &output.Options{Quiet: true})
+				sUnset := gcetcbendorsement.SevValidate(sctx, SnpAttestation(meas, is.Bytes), &gcetcbendorsement.SevValidateOptions{RootsOfTrust: Pool(a.Root)})
+				sExplicit := gcetcbendorsement.SevValidate(sctx, SnpAttestation(meas, is.Bytes), &gcetcbendorsement.SevValidateOptions{RootsOfTrust: Pool(a.Root), Now: time.Now()})
+				if (sUnset == nil) != (sExplicit == nil) {
+					r.Fail("result-differs-from-isolation", "wall-clock/unset-vs-explicit/SevValidate/"+ph.name, "SevValidate with Now unset gives accept=%v at wall-clock time %s, with that time given explicitly accept=%v (%v / %v)",
+						sUnset == nil, time.Now().UTC().Format(time.RFC3339), sExplicit == nil, sUnset, sExplicit)
+				}
 				if (got == nil) != (want == nil) {
 					r.Fail("result-differs-from-isolation", "wall-clock/"+ph.name, "a validator built at %s with no Now set gives accept=%v at wall-clock time %s (%s); a validator built at that moment gives accept=%v (%v)",
 						phases[0].at.UTC().Format(time.RFC3339), got == nil, time.Now().UTC().Format(time.RFC3339), ph.name, want == nil, want)
